@@ -156,6 +156,14 @@ func init() {
 			inner := all[0:2:8]
 			lists := [][]rscp.Message{all[0:2], all[2:4], all[4:5],
 				{{Tag: rscp.BAT_REQ_DATA, DataType: rscp.Container, Value: inner}, {Tag: rscp.WB_REQ_DATA, DataType: rscp.Container, Value: all[2:4]}}}
+			// two containers whose child lists start at the same element of one array and differ in length, both orders
+			kids := make([]rscp.Message, 0, 48)
+			for k := 0; k < 41; k++ {
+				kids = append(kids, rscp.Message{Tag: rscp.Tag(0x01000100 + k), DataType: rscp.CString, Value: strings.Repeat("k", 1600)})
+			}
+			sendCase(cw, []rscp.Message{{Tag: rscp.BAT_REQ_DATA, DataType: rscp.Container, Value: kids[:1]}, {Tag: rscp.WB_REQ_DATA, DataType: rscp.Container, Value: kids[:41]}}, true, g.time(), "containers-sharing-an-array short-first (does not fit)")
+			sendCase(cw, []rscp.Message{{Tag: rscp.BAT_REQ_DATA, DataType: rscp.Container, Value: kids[:39]}, {Tag: rscp.WB_REQ_DATA, DataType: rscp.Container, Value: kids[:1]}}, false, g.time(), "containers-sharing-an-array long-first (fits)")
+			sendCase(cw, []rscp.Message{{Tag: rscp.BAT_REQ_DATA, DataType: rscp.Container, Value: kids[:2]}, {Tag: rscp.WB_REQ_DATA, DataType: rscp.Container, Value: kids[:3]}}, true, g.time(), "containers-sharing-an-array small")
 			// windows that contain a container themselves (the rest of the backing array holds further requests)
 			mixed := make([]rscp.Message, 0, 8)
 			mixed = append(mixed, rscp.Message{Tag: rscp.BAT_REQ_DATA, DataType: rscp.Container, Value: []rscp.Message{{Tag: rscp.BAT_INDEX, DataType: rscp.UInt16, Value: uint16(1)}, {Tag: rscp.BAT_REQ_RSOC, DataType: rscp.None}}})
@@ -176,6 +184,52 @@ func init() {
 					cw.add("skip", "skip", "N send window-of-a-larger-slice", "FAIL * sending a window of a slice changed the caller's data outside (or inside) the window: "+trunc(now, 160))
 					break
 				}
+			}
+		}
+		// a clock that moves on with every reading (600 ms per call): the time in the frame header is one of the readings
+		{
+			cl, err := rscp.NewClient(rscp.ClientConfig{Address: "a", Username: "u", Password: "p", Key: "sendkey"})
+			if err == nil {
+				pc := newPeerCipher("sendkey")
+				sc := &scriptConn{}
+				sc.onWrite = func(k int, b []byte) [][]byte {
+					pl := frameBytes(itemBytes(uint32(rscp.RSCP_AUTHENTICATION), 3, []byte{10}), true, 1, 2)
+					if k > 0 {
+						pl = frameBytes(itemBytes(uint32(rscp.INFO_SERIAL_NUMBER), 13, []byte("x")), true, 1, 2)
+					}
+					ct := make([]byte, len(pl))
+					pc.enc.CryptBlocks(ct, pl)
+					return [][]byte{ct}
+				}
+				cl.VerifAttachConn(sc)
+				var readings []time.Time
+				t := time.Unix(1700000000, 700000000).UTC()
+				rscp.Now = func() time.Time { t = t.Add(600 * time.Millisecond); readings = append(readings, t); return t }
+				_, _ = cl.SendMultiple(g.nonceRequest(0))
+				_, _ = cl.SendMultiple(g.nonceRequest(1))
+				rscp.Now = time.Now
+				prop := "pass"
+				for k, w := range sc.writes {
+					if len(w)%32 != 0 || len(w) < 32 {
+						continue
+					}
+					pl := make([]byte, len(w))
+					pc.dec.CryptBlocks(pl, w)
+					_, sec, nsec, _, perr := peerParseFrame(pl)
+					if perr != "" {
+						continue
+					}
+					found := false
+					for _, r := range readings {
+						if r.Unix() == sec && int32(r.Nanosecond()) == nsec {
+							found = true
+						}
+					}
+					if !found {
+						prop = fmt.Sprintf("FAIL C05 the time in the header of frame %d (%d s, %d ns) is none of the clock readings taken while it was written", k, sec, nsec)
+					}
+				}
+				cw.add("skip", "skip", "N send stepping-clock", prop)
 			}
 		}
 		// credentials too long for the authentication request (one of them beyond a string's limit, or both together beyond
